@@ -390,9 +390,8 @@ pub(crate) async fn handle_actor_stopping_event(
           "Child stopped unexpectedly while Core Running."
       );
       // Only reconnect if the cleanup indicated it was an outbound session that failed.
-      if should_consider_reconnect {
-        if let Some(uri_str) = endpoint_uri_opt {
-          let target_uri = uri_str.to_string();
+      if let Some(target_uri) = should_consider_reconnect {
+        {
 
           // Calculate delay and update state
           let mut state = core_arc.core_state.write();
